@@ -10,6 +10,15 @@ CHECKS = {
  "C02": ("exploration", "runtime monitor: decoded output compared member-by-member with a generator-carried expected-value tree and with zapcore.MapObjectEncoder",
          "For N seeded cases over all built-in level/time/duration/caller/name encoders the emitted line decodes (independent parser, numbers kept as literal text) to exactly the expected ordered tree: 64-bit integers, floats bit-for-bit, strings with U+FFFD replacement, base64, complex parts, errors (message/verbose/causes), times/durations per encoder, correct nesting; a third of the cases is also compared with MapObjectEncoder.",
          "Trusts strconv/time/base64/encoding-json of the Go standard library as reference decoders.", "3/C02"),
+ "C03": ("exploration", "runtime monitor: encoder spy records the exact call sequence each constructor / zap.Any delivers; compared bitwise with the value given; constructor list enumerated from /repo's source at run time",
+         "Every exported Field constructor found by parsing field.go/array.go/error.go/zapfield.go is driven with boundary-biased values; an ObjectEncoder/ArrayEncoder spy must receive exactly the value (bits, zone, order), Any must pick the same representation, and Equals must be reflexive/symmetric/panic-free on (f, rebuilt f, unrelated h). A constructor without a table row makes the run exit 3.",
+         "Reflexivity is not judged for payloads reflect.DeepEqual itself cannot equate (funcs, NaN inside reflected containers/slices).", "3/C03"),
+ "C13": ("fault_enumeration", "runtime monitor: programmed sinks; every per-sink outcome vector of a multi-WriteSyncer enumerated; payload table on every zap writer; Lock exclusion under the race detector with an unsynchronised in-flight counter",
+         "All outcome vectors over {full,short,zero}x{nil,error} for 2..4 (quick) / 5 (thorough) sinks are enumerated on Write and Sync (identical bytes, minimum count, all errors, every sink synced); every zap-provided writer is driven with the payload table and must return (len(p), nil); AddSync/Lock relay table; concurrent Write/Sync through Lock in a -race child.",
+         "Zero-sink multi-syncers are a recorded don't-care. Schedules of the Lock part are sampled.", "3/C13"),
+ "C17": ("exploration", "runtime monitor: chunking-independent line-splitter state machine as reference; all partitions of all short streams enumerated, random streams/partitions/Syncs/level toggles beyond",
+         "Every stream over {a,\\n} up to length 9 (quick) / 12 (thorough) is written in every one of its 2^(n-1) partitions (plus a Sync at one cut) and the logged messages must equal the reference splitter's; 20k (quick) / 1.5M (thorough) random programs add arbitrary bytes, 100 KiB lines, empty writes, Syncs and disabled-level phases.",
+         "With disabled phases only 'nothing logged while disabled' and the return values are judged.", "3/C17"),
 }
 NOT_YET = {}
 props = [json.loads(l) for l in open(os.path.join(V, "properties.jsonl"))]
